@@ -369,7 +369,7 @@ fn main() {
     run.sample(json!({"programs": PROGRAMS, "inputs": ins.iter().map(|v| v.to_string()).collect::<Vec<_>>()}));
     run.sample(json!({"alone_example": {"program": PROGRAMS[1], "observations": alone[2]}}));
     run.finish(
-        "tasks = 28 programs (labels, limits, folds, recursion, paths and updates, regex, sorting, input/inputs, errors, formats, time, $ENV, variables) x 2 inputs, each executed as a lazy iterator over the shared compiled filter with its own context and input stream; for every ordered pair of tasks every interleaving of their moves (create, 3 pulls, drop), for every pair every interleaving with a third task that compiles and drops other filters, and for triples of tasks every interleaving of (create, 2 pulls) is executed on the real interpreter and each task's observations must equal those of the task run alone; running alone twice gives equal observations. The build contains the static assertions Filter: Send + Sync and Val: Send + Sync. A free-running pass with 8 OS threads over the same bodies on shared filters and shared input values is supplementary (sampling). non-trivial = every schedule execution",
+        "tasks = 41 programs (labels, limits, folds, recursion, paths and updates, deletions, regex, sorting, input/inputs, errors, every format with its decoder, time, environment, variables) x 2-3 inputs, each executed as a lazy iterator over the shared compiled filter with its own context and input stream, on a clone of a shared input value; for every ordered pair of tasks every interleaving of their moves (create, 3 pulls, drop), for a sub-set of pairs every interleaving with a third task that compiles and drops other filters, and for triples of tasks every interleaving of (create, 2 pulls) is executed on the real interpreter and each task's observations must equal those of the task in a process of its own (only that program compiled, input freshly parsed and uniquely owned); the task alone in the shared process must agree with that too, and running alone twice gives equal observations. The build contains the static assertions Filter: Send + Sync and Val: Send + Sync. A free-running pass with 8 OS threads over the same bodies on shared filters and shared input values is supplementary (sampling). non-trivial = every schedule execution",
         &["a step is one pull of an execution's output iterator: jaq has no lock or atomic that a controlled scheduler could preempt at, and no unsafe code (forbid(unsafe_code)), so data races inside a pull are excluded by the type checker, which the static assertions bind to the current tree", "filters that read the clock, the environment or the input stream are only used where their result is schedule-independent"],
     );
 }
